@@ -3,6 +3,7 @@ package checks
 import (
 	"fmt"
 	"reflect"
+	"sort"
 	"strings"
 
 	"github.com/AsaiYusuke/jsonpath"
@@ -146,7 +147,7 @@ func init() {
 			"path-directed documents; every function OCCURRENCE is registered under its own name, recording wrappers log each call (argument types + JSON, result or error); judged " +
 			"against SPEC's call protocol: per occurrence the same ordered call log (calls inside the right operand of a && / || whose left operand already decided may be skipped), " +
 			"values equal, and when SPEC's deepest failures are all function failures the error is ErrorFunctionFailed naming one of them; aggregates additionally scribble over the " +
-			"argument slice they were given (unless it is an array of the document) and nothing may change; non-trivial = at least one call was logged; distinct = distinct (path, document)",
+			"argument slice they were given (unless it is an array of the document) and nothing may change; in half of the cases some occurrences' ids are registered in both function tables (the filter table wins); non-trivial = at least one call was logged; distinct = distinct (path, document)",
 		Assumptions: []string{"SPEC's protocol: filter function once per preceding value in result order; aggregate exactly once with all values, or with the elements of the array when the path before it is single-valued and selects an array; not called when nothing precedes",
 			"standard deterministic functions; twice/nostr/first/sum fail on some values"},
 		Plan: func(tier string, seed int64) *harness.Plan {
@@ -187,7 +188,7 @@ func init() {
 					runC14(c, clonePath(p), doc, k%2 == 1)
 				},
 				Finish:   reportHooks,
-				Required: []string{"fn:after-multi", "fn:after-wild", "fn:after-filter", "fn:after-rec", "fn:in-filter", "protocol:aggregate-single-array", "protocol:aggregate-list", "protocol:filter-per-value", "protocol:function-failed", "protocol:optional-skipped-or-not"},
+				Required: []string{"fn:after-multi", "fn:after-wild", "fn:after-filter", "fn:after-rec", "fn:in-filter", "protocol:aggregate-single-array", "protocol:aggregate-list", "protocol:filter-per-value", "protocol:function-failed", "protocol:optional-skipped-or-not", "config:id-in-both-tables"},
 			}
 		},
 	})
@@ -197,6 +198,35 @@ func runC14(c *harness.Ctx, p *spec.Path, doc string, useNum bool) {
 	coverFuncPositions(c, p)
 	alias := uniqueFuncNames(p)
 	fs := std.Alias(alias)
+	if c.K%4 >= 2 {
+		// configurations: an id registered in BOTH tables; functions are looked up filter functions first, so the
+		// occurrence is a filter function whatever the aggregate table says
+		names := make([]string, 0, len(alias))
+		for a := range alias {
+			names = append(names, a)
+		}
+		sort.Strings(names)
+		r := c.Rand("dual")
+		top := map[string]bool{}
+		for _, a := range p.Funcs {
+			top[a] = true
+		}
+		for _, a := range names {
+			if r.Intn(2) == 0 {
+				continue
+			}
+			if _, isFilter := std.Filter[alias[a]]; isFilter {
+				fs.Aggr[a] = std.Aggr[[]string{"count", "first", "echo"}[r.Intn(3)]]
+			} else if !top[a] {
+				continue // inside a comparison an aggregate is what makes the operand single-valued: turning it into a filter function would make the path invalid
+			} else {
+				twin := []string{"ident", "wrap", "nostr"}[r.Intn(3)]
+				fs.Filter[a] = std.Filter[twin]
+				alias[a] = twin
+			}
+			c.Cover("config:id-in-both-tables")
+		}
+	}
 	text, texts := p.Render(spec.Canon)
 	key := text + "\x00" + doc
 
